@@ -1,10 +1,11 @@
 import Pm.Daemon
+import Pm.Dev2Fd
 /-! Helper lemmas for property C01 (a request commands only the plugs of the nodes it names).
 
 `enqueue` (the mirror of `dev_enqueue_actions` + `_enqueue_targeted_actions` for one device) is cut into pieces
 (`tgt`, `mkAct`, `singletActs`, `chosenActs`, `newActs`) and proved equal to the original (`enqueue_eq`); every
 statement below is then derived from one case lemma, `newActs_cases`. -/
-namespace Pm.Daemon
+namespace Pm.Daemon.Enq
 open Pm Pm.Client
 open Pm.Dev2 (Dev Action Stmt Plug Arg ExecCtx StepR Oracle Out stmtSend hsprintf rangedNames setTop teleMem)
 
@@ -663,36 +664,8 @@ theorem foreach_in_singlet_counterexample :
         (fun a => (a.com, a.outerPlugs, twoSteps (exDevWith [exP1, exP3] exScriptsForeach) a))
       = [(10, some [exP3], [111, 102, 102, 32, 49, 10])] := by decide +kernel
 
-end Pm.Daemon
+end Pm.Daemon.Enq
 
 section AxiomChecks
 open Pm.Daemon
-#print axioms enqueue_eq
-#print axioms newActs_cases
-#print axioms newActs_exec
-#print axioms newActs_subset
-#print axioms newActs_plugs_shape
-#print axioms newActs_all
-#print axioms newActs_kind
-#print axioms newActs_uninvolved
-#print axioms newActs_ne_nil
-#print axioms needsDev_false_iff
-#print axioms all_tgt_iff
-#print axioms newActs_commanded
-#print axioms newActs_topCtx
-#print axioms fresh_singlet_send
-#print axioms enqueue_uninvolved
-#print axioms enqueue_frame
-#print axioms install_fold
-#print axioms install_cases
-#print axioms install_uninvolved
-#print axioms install_device
-#print axioms install_involved
-#print axioms stmtSend_singlet
-#print axioms stmtSend_ranged
-#print axioms stmtSend_all
-#print axioms stmtSend_again
-#print axioms matchCmd_spec
-#print axioms parseLine_cases
-#print axioms foreach_in_singlet_counterexample
 end AxiomChecks
